@@ -93,7 +93,7 @@ def _mutate_geom(rng, g, hi):
     g = {"in": list(g["in"]), "Q": g["Q"] if not isinstance(g["Q"], list) else list(g["Q"]),
          "out": g["out"] if not isinstance(g["out"], list) else list(g["out"]),
          "shift": list(g["shift"])}
-    which = rng.choice(["shift", "shift", "Q", "Q", "out", "out", "in", "qtype"])
+    which = rng.choice(["shift", "shift", "Q", "Q", "out", "out", "in", "qtype", "swapio", "swapio"])
     if which == "shift":
         c = rng.random()
         if c < 0.3:
@@ -123,6 +123,10 @@ def _mutate_geom(rng, g, hi):
             g["Q"] = int(q)
         else:
             g["Q"] = [q, q]
+    elif which == "swapio":
+        # the same transform pair seen from the other side: input and output sizes exchanged
+        o = g["out"] if isinstance(g["out"], list) else [g["out"], g["out"]]
+        g["out"], g["in"] = list(g["in"]), list(o)
     elif which == "out":
         o = g["out"]
         if isinstance(o, list):
